@@ -241,9 +241,15 @@ Definition store_old (s : st) (d : diff) : st :=
     (foldd (fun e m => put [fst e; n] (getd nonce_dep [fst e]) m) (d_nonce d) (s_lnonce s))
     (foldd (fun e m => put [fst e; n] (getd class_dep [fst e]) m) (d_replace d) (s_lclass s)).
 
-(* GetReverseStateDiff of the legacy backend: ErrCheckHeadState is an error here *)
+(* GetReverseStateDiff of the legacy backend: for nonces and class hashes ErrCheckHeadState is an error
+   (their logs are always written); for a storage slot it means "no change since n-1" and the head value
+   is used (juno commit 1b89e86; before it this was an error too and RevertHead failed after a zero
+   write to an absent slot). *)
 Definition rev_val_old (m : smap N) (p : key) (n : N) : option N :=
   if n =? 0 then Some 0 else valueAt_old (sub m p) (n - 1).
+Definition rev_store_old (s : st) (p : key) (n : N) : N :=
+  if n =? 0 then 0 else
+  match valueAt_old (sub (s_lstore s) p) (n - 1) with Some v => v | None => getd (s_store s) p end.
 
 Fixpoint map_opt {A B} (f : A -> option B) (l : list A) : option (list B) :=
   match l with
@@ -257,10 +263,10 @@ Definition revert_old (s : st) (d : diff) : option st :=
   match rm_decl n (d_decl d) (s_decl s) with
   | None => None
   | Some decl' =>
-    match map_opt (fun e => option_map (fun v => (fst e, v)) (rev_val_old (s_lstore s) [fst (fst e); snd (fst e)] n)) (d_store d),
-          map_opt (fun e => option_map (fun v => (fst e, v)) (rev_val_old (s_lnonce s) [fst e] n)) (d_nonce d),
+    let r_store := map (fun e => (fst e, rev_store_old s [fst (fst e); snd (fst e)] n)) (d_store d) in
+    match map_opt (fun e => option_map (fun v => (fst e, v)) (rev_val_old (s_lnonce s) [fst e] n)) (d_nonce d),
           map_opt (fun e => option_map (fun v => (fst e, v)) (rev_val_old (s_lclass s) [fst e] n)) (d_replace d) with
-    | Some r_store, Some r_nonce, Some r_class =>
+    | Some r_nonce, Some r_class =>
         let class1 := foldd (fun e m => put [fst e] (snd e) m) r_class (s_class s) in
         let nonce1 := foldd (fun e m => put [fst e] (snd e) m) r_nonce (s_nonce s) in
         let store1 := upd_store r_store (s_store s) in
@@ -275,7 +281,7 @@ Definition revert_old (s : st) (d : diff) : option st :=
           (foldd (fun e m => del [fst (fst e); snd (fst e); n] m) (d_store d) (s_lstore s))
           (foldd (fun e m => del [fst e; n] m) (d_nonce d) (s_lnonce s))
           (foldd (fun e m => del [fst e; n] m) (d_replace d) (s_lclass s)))
-    | _, _, _ => None
+    | _, _ => None
     end
   end.
 
@@ -411,7 +417,8 @@ Definition valid_diffb (s : st) (d : diff) : bool :=
   forallb (fun e => is_deployed s d (fst e)) (d_nonce d) &&
   forallb (fun e => is_deployed s d (fst (fst e))) (d_store d).
 
-(* the guard the legacy revert needs (DESIGN §8.1): no zero write to a slot that is absent *)
+(* the condition under which the legacy revert failed BEFORE juno commit 1b89e86 (DESIGN §8.1): no zero
+   write to a slot that is absent.  No theorem needs it any more; kept for the oracle's diagnostics. *)
 Definition no_noop_zero_write (s : st) (d : diff) : bool :=
   forallb (fun e => negb ((snd e =? 0) && (getd (s_store s) [fst (fst e); snd (fst e)] =? 0))) (d_store d).
 
